@@ -15,7 +15,7 @@ import subprocess
 import sys
 
 HERE = os.path.dirname(os.path.dirname(os.path.abspath(__file__)))
-SV = "/tmp/sv"
+SV = os.environ.get("SV", "/tmp/sv")
 
 
 def sh(cmd, cwd=None, timeout=3000):
@@ -80,7 +80,7 @@ def main():
         m = json.load(open(os.path.join(HERE, "MANIFEST.json")))
         for c in m["checks"]:
             pid = c["property_id"]
-            rr = sh("VERIF_REPO=%s VERIF_EVIDENCE_DIR=/tmp/sv_evidence %s" % (SV, c["quick_cmd"]), cwd=HERE)
+            rr = sh("VERIF_REPO=%s VERIF_EVIDENCE_DIR=%s_evidence %s" % (SV, SV, c["quick_cmd"]), cwd=HERE)
             rules = sorted({l.split(":")[0].replace("  rule ", "") for l in rr.stdout.splitlines() if l.startswith("  rule")})
             if rr.returncode != 0:
                 flagged[pid] = {"rules": rules, "first": [l.strip()[:300] for l in rr.stdout.splitlines() if l.startswith("  rule")][:3]}
